@@ -53,9 +53,9 @@ MODELS = {
          ["Create", "CreateSendFaults", "SwitchUpSendFaults", "FireTotal", "AckBeforeRequestFaults", "Tick"], False),
         ("MC_raw0_K4.cfg", "as built without any shim (constructor raises NameError)", ["CreateFaults", "SwitchUp", "Tick"],
          False),
-        ("LIVE_strict_K4.cfg", "intended design, liveness (Settles under WF(Tick), WF(timers))",
+        ("LIVE_strict_q.cfg", "intended design, liveness (Settles under WF(Tick), WF(timers))",
          ["FireDiscover", "FireRequest", "FireTotal", "RxAck", "RxNak", "Tick"], True),
-        ("LIVE_asbuilt_K4.cfg", "with deviations, liveness (Settles)", ["RequestTimeoutFaults", "FireTotal", "NakFaults"],
+        ("LIVE_asbuilt_q.cfg", "with deviations, liveness (Settles)", ["RequestTimeoutFaults", "FireTotal", "NakFaults"],
          False),
     ],
     "thorough": [
@@ -205,6 +205,8 @@ def run(ctx):
   batches = []
   for kname, cfg in (("K8", "Trace_K8.cfg"), ("K5", "Trace_K5.cfg")):
     items = [(ctx.seed * 100003 + i, nev, kname) for i in range(ntr)]
+    if kname == "K8":       # second scenario: the real DHCPD is the server (default timeouts)
+      items += [(ctx.seed * 100003 + 500000 + i, nev, "E2E") for i in range(ntr // 3)]
     traces = core.run_driver("props.X11:drive", items)
     bads = _corrupt(traces)
     if len(bads) < 2 and not ctx.violations:
@@ -239,7 +241,7 @@ def run(ctx):
       ends[t[-1]["obs"]["st"]] = ends.get(t[-1]["obs"]["st"], 0) + 1
     ctx.notes["trace_validation_" + kname] = dict(
         traces=n, events=sum(len(t) for t in traces), rejected=nrej, negative_controls_rejected=len(bads),
-        final_states=ends, leased=sum(1 for t in traces for e in t for v in e["obs"]["evs"] if v["e"] == "Leased"),
+        with_real_dhcpd=sum(1 for it in items if it[2] == "E2E"), final_states=ends, leased=sum(1 for t in traces for e in t for v in e["obs"]["evs"] if v["e"] == "Leased"),
         faults=sum(1 for t in traces for e in t if e["obs"]["fault"] != "-"))
   phase["trace_validation"] = round(time.time() - t0, 1)
   ctx.exhaustive = True
@@ -328,6 +330,8 @@ def drive(arg):
   is visible of the real system (xids seen on the wire, pending timers of the real scheduler, client.state,
   len(client.offers)), not from a model."""
   seed, n, kname = arg
+  if kname == "E2E":
+    return drive_e2e(arg)
   from harness.adapters_x11 import Adapter
   rnd = random.Random(seed)
   ad = Adapter(variant=seed % 30, seed=0, **TIMEOUTS[kname])
@@ -402,13 +406,74 @@ def drive(arg):
     ad.close()
 
 
+def drive_e2e(arg):
+  """Second scenario: the real DHCPD (pox/proto/dhcpd.py, behind a second real switch) is the server.  Its frames
+  reach the client unmodified, in order, possibly late or never; each delivery is recorded as the spec action it
+  is (RxOffer / RxAck / RxNak with the xid class, offer, chaddr read from the frame)."""
+  seed, n, kname = arg
+  from harness.adapters_x11 import Adapter
+  rnd = random.Random(seed)
+  ad = Adapter(variant=seed % 30, seed=0, **TIMEOUTS["K8"])
+  ad.enable_e2e()
+  tr = []
+
+  def rec(a, args, f):
+    try:
+      obs = f()
+      wf = _wf(obs)
+    except core.Machinery:
+      raise
+    except Exception as e:          # noqa
+      obs, wf = {"exc": "%s: %s" % (type(e).__name__, e)}, False
+    if not wf:
+      obs = dict(DUMMY, raw=json.dumps(obs, default=str)[:600])
+    tr.append(dict(a=a, args=args, obs=obs, wf=wf))
+    if wf:
+      ad.e2e_forward()
+    return wf
+
+  try:
+    create = ("Create", dict(auto=rnd.random() < 0.5, port="name", fl=rnd.random() < 0.75))
+    pro = [create, ("SwitchUp", dict(x=0))] if rnd.random() < 0.4 else [("SwitchUp", dict(x=0)), create]
+    for a, args in pro:
+      if not rec(a, args, lambda: ad.step(a, args)):
+        return tr
+    lossy = rnd.random() < 0.5
+    idle = 0
+    while len(tr) < n and idle < 3:
+      c = ad.client
+      idle = idle + 1 if (c is not None and c.state in (c.BOUND, c.ERROR)) else 0
+      due = [k for k, d in ad.net.pending() if d <= 0]
+      r = rnd.random()
+      if ad.inflight and r < (0.5 if lossy else 0.8):
+        frame = ad.inflight.pop(0)
+        if lossy and rnd.random() < 0.25:
+          continue                                           # lost on the wire
+        a, args = ad.e2e_classify(frame)
+        if a == "RxOffer":
+          if len(c.offers) >= MAX_OFFERS:
+            continue
+          args.update(dec=rnd.choice(["accept", "reject", "defer", "defer"]), pick=rnd.choice([0, 0, 0, 1, 2]))
+        ok = rec(a, args, lambda: ad.e2e_deliver(frame, args.get("dec", "defer"), args.get("pick", 0)))
+      elif due:
+        args = dict(pick=rnd.choice([0, 0, 0, 1, 2]), alts=[])
+        ok = rec("Run", args, lambda: ad.step("Run", args))
+      else:
+        ok = rec("Tick", dict(x=0), lambda: ad.step("Tick", dict(x=0)))
+      if not ok:
+        break
+    return tr
+  finally:
+    ad.close()
+
+
 def replay_one(ctx, rep):
   """`./check X11 --replay FILE`: re-run one recorded failure against the current tree."""
   if "behaviour" in rep:
     core.replay(ctx, rep["adapter"], [rep["behaviour"]], params=rep.get("params"), procs=1)
     return
   arg = tuple(rep["driver_arg"])
-  tr = drive(arg)
+  tr = drive_e2e(arg) if arg[2] == "E2E" else drive(arg)
   r, rej = tracecheck.validate(SPEC, "TraceDhcpClient", rep["config"], [tr], tag="X11")
   for t, matched in rej:
     ev = tr[matched]
